@@ -43,6 +43,9 @@ type params struct {
 	MaxOrders int         `json:"max_orders"`
 	// Batch > 0: the commit lists the splits with this page size (a page may end between the two state files of a split)
 	Batch int `json:"listing_batch_size,omitempty"`
+	// Overlap: the first split to start is held at its first blob call until every other split has finished, and
+	// only then uploads its files (one at a time): it started first and uploaded last
+	Overlap bool `json:"first_split_uploads_last,omitempty"`
 }
 
 func gen11(seed int64, tier string) []drv.Case {
@@ -57,6 +60,7 @@ func gen11(seed int64, tier string) []drv.Case {
 		np := 3 + r.Intn(4)
 		nc := 3 + r.Intn(2)
 		var sp []splitSpec
+		emptySplits := 0
 		for s := 0; s < k; s++ {
 			id := fmt.Sprintf("split-%c", 'a'+(s*7+i)%26) + fmt.Sprint(s)
 			fs := map[string]string{}
@@ -71,11 +75,18 @@ func gen11(seed int64, tier string) []drv.Case {
 			if r.Intn(3) == 0 {
 				fs[fmt.Sprintf("only-%s", id)] = fmt.Sprintf("private-%d", s)
 			}
+			if k > 1 && r.Intn(7) == 0 {
+				fs = map[string]string{} // a completed split that found nothing to upload (empty source, filter without match)
+				emptySplits++
+			}
 			sp = append(sp, splitSpec{ID: id, Files: fs})
 		}
 		p := params{Splits: sp, UploadSeq: r.Perm(k), Seed: r.Int63(), MaxOrders: 24}
 		if i%3 == 1 {
 			p.Batch = []int{1, 2, 3, 4, 5, 7}[r.Intn(6)]
+		}
+		if i%4 == 2 && k > 1 {
+			p.Overlap = true
 		}
 		if (tier == "thorough" && i%30 == 0) || (tier != "thorough" && i == 3) {
 			p.BigSplit = true
@@ -84,6 +95,12 @@ func gen11(seed int64, tier string) []drv.Case {
 		cls := fmt.Sprintf("splits=%d", k)
 		if p.BigSplit {
 			cls += "+two-index-files"
+		}
+		if p.Overlap {
+			cls += "+overlapping-splits"
+		}
+		if emptySplits > 0 {
+			cls += "+empty-split"
 		}
 		cs = append(cs, drv.Case{ID: fmt.Sprintf("%s-%d", cls, i), Class: cls, Params: drv.MustJSON(p)})
 	}
@@ -181,7 +198,10 @@ func run11(c drv.Case, res *drv.Result) {
 	must(err)
 	content := func(label string) []byte { return gen.Bytes(p.Seed, label, 20+len(label)*37) }
 	var bigTree coreh.Tree
-	for _, si := range p.UploadSeq {
+	early := ""
+	earlyDone := make(chan error, 1)
+	var releaseEarly func()
+	for ui, si := range p.UploadSeq {
 		sp := p.Splits[si]
 		t := coreh.Tree{}
 		for path, label := range sp.Files {
@@ -193,8 +213,42 @@ func run11(c drv.Case, res *drv.Result) {
 				t[k] = v
 			}
 		}
+		if p.Overlap && ui == 0 {
+			early = sp.ID
+			ea := memstore.NewActor("early-split")
+			gate := ea.GateWhen(func(c memstore.Call) bool { return c.Store == "blob" })
+			src := base.MemConsumable("src-"+sp.ID, t).For(nil)
+			go func() {
+				_, err := base.SplitUpload(ea, "r", d.DiamondID, sp.ID, src, 1)
+				earlyDone <- err
+			}()
+			select {
+			case <-gate.Parked():
+				res.Stat("splits_held_before_their_first_blob_call", 1)
+			case err := <-earlyDone:
+				must(err) // an empty split makes no blob call: nothing to hold
+				early = ""
+				continue
+			case <-time.After(60 * time.Second):
+				res.Skipped = "the first split did not reach its first blob call within 60 s"
+				return
+			}
+			releaseEarly = gate.Release
+			continue
+		}
 		_, err := base.SplitUpload(nil, "r", d.DiamondID, sp.ID, base.MemConsumable("src-"+sp.ID, t).For(nil), 4)
 		must(err)
+	}
+	if releaseEarly != nil {
+		time.Sleep(2 * time.Millisecond)
+		releaseEarly()
+		select {
+		case err := <-earlyDone:
+			must(err)
+		case <-time.After(120 * time.Second):
+			res.Skipped = "the held split did not finish within 120 s of its release"
+			return
+		}
 	}
 	// ---- read back what datamon stored for each split
 	versions := map[string][]version{}
@@ -215,6 +269,25 @@ func run11(c drv.Case, res *drv.Result) {
 				versions[e.NameWithPath] = append(versions[e.NameWithPath], version{sp.ID, e.Hash, e.Size, e.Timestamp})
 			}
 		}
+	}
+	// upload times must agree with what the store saw: the held split made all its blob calls after every other split
+	// had finished, so none of its entries may be dated before an entry of another split
+	if early != "" {
+		for path, vs := range versions {
+			for _, ve := range vs {
+				if ve.split != early {
+					continue
+				}
+				for _, vo := range vs {
+					if vo.split != early && !ve.t.After(vo.t) {
+						res.Violate("upload-time-contradicts-store-order", "overlapping-splits", "path %q: split %s started first but uploaded all its files after split %s had finished, yet its entry is dated %s, not after %s (the latest upload would lose); versions: %s",
+							path, early, vo.split, ve.t.Format("15:04:05.000000"), vo.t.Format("15:04:05.000000"), fmtVersions(vs))
+						return
+					}
+				}
+			}
+		}
+		res.Stat("overlapping_split_sets_checked", 1)
 	}
 	conflictExists := false
 	winner := map[string]version{}
